@@ -14,3 +14,5 @@ var verifBoundFSModes = [5]bool{true, true, false, true, true}
 const verifBoundFSCorruptMetaOnly = true
 const verifBoundFSCommits = 2
 const verifBoundROTail = 6
+const verifBoundArchive = 2
+const verifBoundDataLossBytes = 12
